@@ -148,6 +148,19 @@ def c08_space(tier):
     out.append({"id": "deque-4", "argv": ["dequex", "4", "40"]})
     if thorough:
         out.append({"id": "deque-6", "argv": ["dequex", "6", "60"]})
+        # the same spaces once more under AddressSanitizer (about 8x slower, so one level
+        # shallower); there the walker does not stop the search at a dangling pointer:
+        # the execution runs into the dereference and the sanitizer reports it
+        asan = []
+        for j in out:
+            if j["argv"][0] == "seqx":
+                sp = j["argv"][1]
+                import re
+                d = int(re.search(r"D=(\d+)", sp).group(1))
+                sp2 = re.sub(r"D=\d+", "D=%d" % (d - 1), sp)
+                asan.append({"id": "asan-" + j["id"], "argv": ["seqx", sp2, "@JOURNAL@"], "asan": True})
+        asan.append({"id": "asan-deque-5", "argv": ["dequex", "5", "60"], "asan": True})
+        out += asan
     for cap in (0, 1, 2, 3, 5):
         out.append({"id": "sketch-tiling-%d" % cap, "argv": ["sketchx", str(cap), "tiling", "3", "40" if not thorough else "90"]})
     return out
